@@ -339,22 +339,64 @@ def run(ctx):
     # ------------------------------------------------------------------ C07.e
     ctx.rule('C07.e', 'body-for-operation substitution: a transformer may treat the body (`.circuit`) of a CircuitOperation as standing for '
              'the operation (expanding it into operations, or handing it to a rewriter as a merged component) only under a test that its '
-             'own intermediate/merged tag is on the operation - otherwise repetitions and maps of a user sub-circuit are ignored', floor=3, style='RG')
+             'own intermediate/merged tag is on the operation - otherwise repetitions and maps of a user sub-circuit are ignored', floor=4, style='RG')
+    from ..flow import name_deps
+    SCOPE_E = ('cirq-core/cirq/transformers/', 'cirq-google/cirq_google/transformers/', 'cirq-aqt/', 'cirq-ionq/', 'cirq-pasqal/')
     for m2 in sorted(repo.modules.values(), key=lambda mm_: mm_.rel):
-        if not m2.rel.startswith(('cirq-core/cirq/transformers/', 'cirq-google/cirq_google/transformers/')):
+        if not m2.rel.startswith(SCOPE_E) or '.circuit' not in m2.src and 'Callable' not in m2.src:
             continue
         parents2 = m2.parents()
-        for n in ast.walk(m2.tree):
-            site = None
-            # [*x.circuit] / for _ in x.circuit / flatten(x.circuit) / x.circuit.all_operations()
-            if isinstance(n, ast.Attribute) and n.attr == 'circuit' and 'untagged' in ast.unparse(n.value):
+        # body-for-operation: `<u>.circuit` consumed as a sequence of operations, where <u> is derived from `<op>.untagged`
+        for fnn2 in [f for f in ast.walk(m2.tree) if isinstance(f, (ast.FunctionDef, ast.AsyncFunctionDef))]:
+            if '.circuit' not in ast.unparse(fnn2) or 'untagged' not in ast.unparse(fnn2):
+                continue
+            dep = name_deps(fnn2, {}, source_of=lambda x: {'UNTAGGED'} if isinstance(x, ast.Attribute) and x.attr == 'untagged' else None)
+            inner_fns = {id(x) for f in ast.walk(fnn2) if f is not fnn2 and isinstance(f, (ast.FunctionDef, ast.AsyncFunctionDef)) for x in ast.walk(f)}
+            for n in ast.walk(fnn2):
+                if id(n) in inner_fns or not (isinstance(n, ast.Attribute) and n.attr == 'circuit' and isinstance(n.ctx, ast.Load)):
+                    continue
+                base = n.value
+                from_untagged = (isinstance(base, ast.Attribute) and base.attr == 'untagged') or (isinstance(base, ast.Name) and 'UNTAGGED' in dep.get(base.id, set()))
+                if not from_untagged:
+                    continue
                 par = parents2.get(n)
+                consumed = None
                 if isinstance(par, ast.Starred):
-                    site = par
+                    consumed = 'unpacked into a list of operations'
                 elif isinstance(par, (ast.For, ast.comprehension)) and par.iter is n:
-                    site = n
-                elif isinstance(par, ast.Attribute) and par.attr in ('all_operations', 'moments', 'unfreeze') and False:
-                    site = n
+                    consumed = 'iterated'
+                elif isinstance(par, ast.Attribute) and par.attr in ('all_operations', 'moments', 'unfreeze', 'findall_operations') and isinstance(parents2.get(par), ast.Call):
+                    consumed = f'read through .{par.attr}()'
+                elif isinstance(par, ast.Subscript) and par.value is n:
+                    consumed = 'indexed'
+                if consumed is None:
+                    continue
+                btxt = ast.unparse(base)
+                guards = list(dominating_atoms(parents2, n, fnn2))
+                q = n
+                while q in parents2 and not isinstance(parents2[q], ast.stmt):
+                    pp = parents2[q]
+                    if isinstance(pp, ast.BoolOp) and isinstance(pp.op, ast.And) and q in pp.values:
+                        guards += [(v, True) for v in pp.values[:pp.values.index(q)]]
+                    if isinstance(pp, ast.IfExp) and q is pp.body:
+                        guards += [(a_, True) for a_ in (pp.test.values if isinstance(pp.test, ast.BoolOp) and isinstance(pp.test.op, ast.And) else [pp.test])]
+                    q = pp
+                ok = False
+                for a, pol in guards:
+                    if not pol:
+                        continue
+                    if isinstance(a, ast.Compare) and len(a.ops) == 1 and isinstance(a.ops[0], ast.In) and ast.unparse(a.comparators[0]).endswith('.tags'):
+                        ok = True      # the transformer's own tag is on the operation
+                    if isinstance(a, ast.Compare) and len(a.ops) == 1 and isinstance(a.ops[0], ast.Eq):
+                        l, r = ast.unparse(a.left), a.comparators[0]
+                        if l == btxt and isinstance(r, ast.Call) and ast.unparse(r.func).split('.')[-1] == 'CircuitOperation' and len(r.args) == 1 and not r.keywords \
+                                and ast.unparse(r.args[0]) == f'{btxt}.circuit':
+                            ok = True  # a plain wrapper: equal to CircuitOperation(<its circuit>), so no repetitions / maps / resolver
+                ctx.ob('C07.e', f'{m2.name}.{fnn2.name}:body-expansion', ok,
+                       '' if ok else f'`{ast.unparse(n)}` is {consumed} in place of the operation without a test of the transformer\'s own tag (`tag in op.tags`) and without a test that '
+                       f'the operation is a plain wrapper (`{btxt} == CircuitOperation({btxt}.circuit)`): repetitions, qubit map and resolver of a user sub-circuit are ignored',
+                       m2.rel, n.lineno)
+        for n in ast.walk(m2.tree):
             # a value handed to a callable that is documented (annotated) to receive a CircuitOperation standing for a merged component
             if isinstance(n, ast.Call) and isinstance(n.func, ast.Name) and n.args:
                 chain = []
@@ -406,16 +448,6 @@ def run(ctx):
                            '' if ok else f'`{bad[0]}` is handed to `{n.func.id}` (documented to receive the CircuitOperation of a merged component) '
                            'without a test that the transformer\'s own tag is on the operation and without wrapping it in a fresh CircuitOperation: '
                            'a user sub-circuit with repetitions / maps is then taken for its body', m2.rel, n.lineno)
-            if site is not None:
-                fnn = n
-                while fnn in parents2 and not isinstance(fnn, ast.FunctionDef):
-                    fnn = parents2[fnn]
-                atoms = dominating_atoms(parents2, n, fnn if isinstance(fnn, ast.FunctionDef) else None)
-                ok = any(isinstance(a, ast.Compare) and isinstance(a.ops[0], ast.In) and pol and ast.unparse(a.comparators[0]).endswith('.tags')
-                         and 'tag' in ast.unparse(a.left).lower() for a, pol in atoms)
-                ctx.ob('C07.e', f'{m2.name}.{getattr(fnn, "name", "?")}:body-expansion', ok,
-                       '' if ok else f'`{ast.unparse(n)}` is expanded in place of the operation without checking the transformer\'s own tag: for a user '
-                       'sub-circuit with repetitions/maps the result is not equivalent', m2.rel, n.lineno)
 
     # ------------------------------------------------------------------ C07.d
     ctx.rule('C07.d', 'every CompilationTargetGateset subclass: each constructor option stored on self is read outside __init__ and takes part '
